@@ -359,7 +359,7 @@ class ipv6 (packet_base):
         try:
           offset,o = c.unpack_new(raw, offset, max_length = length)
           length -= len(o)
-        except TruncatedException:
+        except (TruncatedException, struct.error):
           self.msg('(ipv6) warning, packet data truncated')
           return
         self.extension_headers.append(o)
